@@ -38,7 +38,7 @@ def build_doc(r, pols, pad_to=None):
 
 
 def run(ctx):
-    b = lib.standard_build(ctx)
+    b = lib.standard_build(ctx, theorems=False)   # no Coq theorem for this property yet: see MANIFEST level
     if not lib.require_builds(ctx, b):
         return
     r = ctx.rng
